@@ -311,6 +311,33 @@ def classify_write(prog, f, n, R, toupper_ok):
         return 'undecided', 'gathered', 'local buffer `%s`: %s' % (ga['local'], ga['why'])
     if m['k'] == 'CXXMemberCallExpr' and m['callee']['name'] in ('c_str', 'data') and m['callee'].get('classq') == 'std::basic_string':
         atom = string_size_atom(f, m['obj'], R, toupper_ok)
+        # a string produced by a helper: its length is known only when the helper resizes it to one of its parameters
+        so = f.nodes[f.strip(m['obj'], 'all')]
+        hops = 0
+        while so['k'] == 'DeclRefExpr' and so['decl'].get('dk') == 'local' and local_init(f, so['decl']['id']) is not None and hops < 3:
+            so = f.nodes[f.strip(local_init(f, so['decl']['id']), 'all')]
+            hops += 1
+        if so['k'] == 'CallExpr' and so.get('callee', {}).get('inrepo') and so['callee'].get('qname') != 'ezc3d::toUpper':
+            hf = prog.funcs.get(so['callee']['usr'])
+            size_arg = None
+            if hf is not None and hf.body is not None:
+                Rh = Renderer(hf)
+                rets = [hf.nodes[hf.strip(r_['ch'][0], 'all')] for r_ in hf.all_nodes({'ReturnStmt'}) if r_['ch']]
+                if rets and all(r_['k'] == 'DeclRefExpr' and r_['decl'].get('dk') == 'local' for r_ in rets) and len({r_['decl']['id'] for r_ in rets}) == 1:
+                    vid = rets[0]['decl']['id']
+                    rs = [c_ for c_ in hf.calls() if c_['callee']['name'] == 'resize' and c_.get('obj') is not None and hf.nodes[hf.strip(c_['obj'], 'all')].get('decl', {}).get('id') == vid]
+                    later = [c_ for c_ in hf.calls() if c_.get('obj') is not None and hf.nodes[hf.strip(c_['obj'], 'all')].get('decl', {}).get('id') == vid and not c_['callee'].get('const')
+                             and c_['callee']['name'] not in ('resize', 'begin', 'end', 'operator[]', 'data')]
+                    if len(rs) == 1 and not [c_ for c_ in later if c_['id'] > rs[0]['id']]:
+                        am = re.match(r'^arg(\d+)$', Rh.render(rs[0]['args'][0]))
+                        if am:
+                            size_arg = int(am.group(1))
+            if size_arg is not None and size_arg < len(f.call_args(so)):
+                sp = P.poly(f, f.call_args(so)[size_arg], R)
+                if all(P.equal(w, sp) for w in widths):
+                    return 'ok', 'string', 'string resized by %s to %s characters, exactly that many written' % (hf.name, P.show(sp))
+                return 'violation', 'string', 'byte count %s is not the length %s the helper %s gives the string' % ('/'.join(P.show(w) for w in widths), P.show(sp), hf.name)
+            return 'undecided', 'string', 'the string comes from %s, whose result length the rule cannot read' % so['callee'].get('qname')
         for w in widths:
             if not P.equal(w, {(atom,): 1}):
                 return 'violation', 'string', 'byte count %s is not the size of the string being written (%s): bytes past its end would be emitted' % (P.show(w), atom)
